@@ -67,36 +67,25 @@ theorem rebuild_eq_spliceAll (l new : Bits) (oldLen : Nat) (p0 : Nat) (rest : Li
 
 /-! ### replace -/
 
-/-- `replace`: ALG = SPEC, except that `count=0` returns before `old` and the range are validated
-    (known deviation `replaceCountZeroUnchecked`). -/
-theorem replace_eq_spec_partial (l : Bits) (old new : Operand) (s e : Option Int) (count : Option Int) (al : Bool)
-    (h : replaceCountZeroUnchecked l old s e count = false) :
+/-- `replace`: ALG = SPEC on every input — validation of `old` and of the range first, `count = 0` replaces nothing,
+    otherwise collect + rebuild equals select + splice. -/
+theorem replace_eq_spec (l : Bits) (old new : Operand) (s e : Option Int) (count : Option Int) (al : Bool) :
     Alg.replace l old new s e count al = Spec.replace l (old.val l) (new.val l) s e count al := by
-  unfold replaceCountZeroUnchecked at h
-  unfold Alg.replace
-  by_cases hc : count = some 0
-  · subst hc
-    simp only [beq_self_eq_true, Bool.true_and, Bool.or_eq_false_iff, beq_eq_false_iff_ne] at h
-    obtain ⟨ho, hv⟩ := h
-    rw [if_pos rfl]
-    cases hvs : validateSlice l.length s e with
-    | error err => rw [hvs] at hv; cases hv
+  unfold Alg.replace Spec.replace
+  split
+  · rfl
+  · cases hvs : validateSlice l.length s e with
+    | error err => rfl
     | ok az =>
       obtain ⟨a, z⟩ := az
-      rw [replace_of_ok l (old.val l) (new.val l) s e (some 0) al a z
-        (fun h0 => ho (by rw [h0]; rfl)) hvs]
-      have hb : Spec.budget (some 0) = some 0 := by simp [Spec.budget]
-      rw [hb, select_zero]
-      rfl
-  · rw [if_neg hc]
-    unfold Spec.replace
-    split
-    · rfl
-    · cases hvs : validateSlice l.length s e with
-      | error err => rfl
-      | ok az =>
-        obtain ⟨a, z⟩ := az
-        simp only
+      simp only
+      by_cases hc : count = some 0
+      · subst hc
+        rw [if_pos rfl]
+        have hb : Spec.budget (some 0) = some 0 := by simp [Spec.budget]
+        rw [hb, select_zero]
+        rfl
+      · rw [if_neg hc]
         unfold Alg._replace
         simp only
         rw [collect_eq_select' _ count hc]
@@ -110,12 +99,18 @@ theorem replace_eq_spec_partial (l : Bits) (old new : Operand) (s e : Option Int
           rw [slc_zero, spliceAll_closed l (new.val l) (old.val l).length p0 rest hf.1
             (fun p hp => by have := (hf.2 p hp).2; omega)]
 
-theorem replace_count_zero_witness :
-    Alg.replace [false, true] (.lit [true]) (.lit [true]) (some 8) (some 9) (some 0) false = .ok (0, [false, true]) ∧
-    Spec.replace [false, true] [true] [true] (some 8) (some 9) (some 0) false = .error .value ∧
-    Alg.replace [false, true] (.lit []) (.lit [true]) none none (some 0) false = .ok (0, [false, true]) ∧
-    Spec.replace [false, true] [] [true] none none (some 0) false = .error .value := by
-  decide
+/-- `count = 0` still validates its arguments (and then replaces nothing). -/
+theorem replace_count_zero (l : Bits) (old new : Operand) (s e : Option Int) (al : Bool) :
+    Alg.replace [false, true] (.lit [true]) (.lit [true]) (some 8) (some 9) (some 0) false = .error .value ∧
+    Alg.replace [false, true] (.lit []) (.lit [true]) none none (some 0) false = .error .value ∧
+    (∀ a z, (old.val l) ≠ [] → validateSlice l.length s e = .ok (a, z) →
+      Alg.replace l old new s e (some 0) al = .ok (0, l)) := by
+  refine ⟨by decide, by decide, ?_⟩
+  intro a z ho hv
+  unfold Alg.replace
+  have : (old.val l).length ≠ 0 := fun h => ho (List.length_eq_zero_iff.mp h)
+  rw [if_neg this, hv]
+  simp
 
 /-- The return value is the number of selected matches, and at most `count`. -/
 theorem replace_count (l old new r : Bits) (s e : Option Int) (count : Option Int) (al : Bool) (k a z : Nat)
